@@ -352,9 +352,6 @@ pub fn run_walk(case: &Case) -> Result<CallStack, String> {
     let modules = MinidumpModuleList::from_modules(case.mods.iter().map(|(b, z, n)| MinidumpModule::new(*b, *z, n)).collect());
     let sysinfo = system_info(case);
     let symbols = symbol_map(case);
-    if std::env::var("WALK_PANIC_LOC").is_ok() {
-        std::panic::set_hook(Box::new(|i| eprintln!("panic at {:?}", i.location())));
-    }
     catch(|| {
         let symbolizer = Symbolizer::new(string_symbol_supplier(symbols));
         let mut stack = CallStack::with_context(context);
